@@ -14,7 +14,8 @@ pub fn hdr_kinds(w: u16, h: u16, q: u8, inter: bool, tr: u8) -> Vec<Hdr> {
     for version in [0u8, 1] {
         v.push(Hdr::S(SHdr { version, tr, size: SSize::auto(w, h), ptype: inter as u8, deblock: false, q, pei: vec![] }));
     }
-    if w % 4 == 0 && h % 4 == 0 && w >= 4 && h >= 4 {
+    // CPFMT: PWI and PHI are nine-bit fields (width up to 2048, height up to 2044)
+    if w % 4 == 0 && h % 4 == 0 && w >= 4 && h >= 4 && w <= 2048 && h <= 2044 {
         v.push(Hdr::Std(StdHdr::custom(w, h, inter, tr, q)));
     }
     for (code, dims) in [(1u8, (128u16, 96u16)), (2, (176, 144)), (3, (352, 288))] {
@@ -107,9 +108,10 @@ pub fn run(tier: Tier) -> Report {
             sizes.push((w, h));
         }
     }
-    sizes.extend([(176, 144), (128, 96), (65, 33), (33, 65), (255, 1), (1, 255), (256, 16), (16, 256), (320, 8)]);
+    // sizes crossing 8-bit and 16-bit boundaries of widths, heights and macroblock counts
+    sizes.extend([(176, 144), (128, 96), (65, 33), (33, 65), (255, 1), (1, 255), (256, 16), (16, 256), (320, 8), (352, 288), (2048, 16), (16, 2064), (257, 17)]);
     if tier.thorough() {
-        sizes.extend([(352, 288), (257, 17), (640, 16)]);
+        sizes.extend([(640, 16), (704, 576), (4096, 8), (8, 4112), (1024, 1024)]);
     }
     for &(w, h) in &sizes {
         for hdr in hdr_kinds(w, h, 5, false, 1) {
